@@ -142,7 +142,8 @@ def do_check(prop, tier):
         try:
             summ = runner.explore(
                 prop, part["engine"], part["params"], seed, n_runs, workers=workers,
-                wall_s=part.get("wall_s", 150.0), run_timeout_s=part.get("run_timeout_s", 60.0),
+                wall_s=part.get("wall_s", 150.0) * float(os.environ.get("VERIF_WALL_MULT", "1")),
+                run_timeout_s=part.get("run_timeout_s", 60.0),
                 per_fork=part.get("per_fork", 1), samples=2,
             )
         except runner.HarnessError as e:
